@@ -238,7 +238,7 @@ var callbackStops = map[string]struct {
 	"internal/dmap.(*DMap).evictKeyWithLRU|pkg/storage.(Engine).Range":                 {1, "the LRU sample is complete"},
 	"internal/dmap.(*Service).evictKeys|sync.(*Map).Range":                             {1, "one fragment per DMap and partition is looked at per round"},
 	"internal/dmap.(*Service).scanFragmentForEviction|pkg/storage.(Engine).RangeHKey":  {1, "the per-round key budget is used up"},
-	"internal/kvstore.(*KVStore).evictTable|internal/kvstore/table.(*Table).RangeHKey": {4, "an error ends the batch (it is returned), a full head table restarts it, and a batch moves at most 1000 entries; compaction reports 'not done' and is called again"},
+	"internal/kvstore.(*KVStore).evictTable|internal/kvstore/table.(*Table).RangeHKey": {0, "only stops on an error, which evictTable returns; a full head table restarts the batch"},
 	"internal/pubsub.(*PubSub).Publish|github.com/tidwall/btree.(*BTree).Ascend":       {1, "the ordered index has left the entries of this channel"},
 }
 
